@@ -229,5 +229,7 @@ package doccomposer
 //@   loop 1
 //@     invariant result != nil && fresh(result) && framed() && patchesApplied == old(patchesApplied) + _k
 //@   ensures err == nil ==> r != nil && fresh(r) && patchesApplied == old(patchesApplied) + len(patches)
+//   the k-th call applies the k-th patch of the list to the document built so far
+//@   atcall applyPatch arg1 == patches[_k] && arg0 == result
 //@   modifies patchesApplied
 //@   ensures err != nil ==> r == nil
